@@ -50,6 +50,14 @@ P = {
    "Execution configurations built as JSON and decoded by the real version-dispatching unmarshaller: presence lattice of fee recipient / gas limit / grace / min value over top level, base relay, proposer entry and proposer relay, relay sets (inherited, new, disabled, reset), ordered proposer lists mixing pubkey and (anchored / unanchored) account regexes, for 2 pubkeys x 3 account names, v2 and legacy v1; compared with an independent reference resolver written from the documentation, and checked for marshal/unmarshal meaning preservation. Configurations are enumerated completely within the bounded grammar (pairwise in quick, fuller in thorough).",
    "Trusted: the reference resolver (from docs/executionconfig.md and docs/execlayer.md); relay order compared as a set; null entries / regex alternation are C16 / C13 inputs.",
    SEQ, "DESIGN.md §6 C10"),
+ "C05": ("model_checking",
+   "Real Prepare + Propose of the block proposer for every block version x blinded x proposal slot x graffiti / auction / signing / submission outcome x unblind-from-all x per-relay unblinding behaviour (full block, retried errors, status 400, empty response, never), with the relay goroutines explored under deviation-bounded schedules (quick 1, thorough 2); the oracle inspects every RANDAO / block signing request, every unblinding request and the submitted container (pointer identity of block and signature).",
+   "Trusted: well-formed proposals from the provider (malformed ones are C16); two relays; 8 s duty context deadline.",
+   MC + " (deviation-bounded)", "DESIGN.md §6 C05"),
+ "C14": ("model_checking",
+   "Real beacon committee subscriber, attestation aggregator and controller (real constructors): all duty sets of 3 (thorough 4) validators over the (slot, committee) pairs of an epoch x current slot positions x signature classes x committee sizes; all size/target pairs of the aggregator selection against a sha256 reference on boundary signatures; all attestation subsets x subscription-info shapes for the aggregation jobs; plus an end-to-end composition. Inputs and histories are enumerated completely within the alphabet.",
+   "Trusted: recording scheduler stand-in refuses duplicate names like the real one; two committees, <=4 validators.",
+   SEQ, "DESIGN.md §6 C14"),
 }
 checks = []
 for pid in ids:
